@@ -3,6 +3,7 @@
 //! observations and the verdicts of the implementation-side oracles.
 mod isdyn;
 mod num;
+mod reactive;
 mod route;
 mod util;
 
@@ -49,6 +50,7 @@ fn main() {
         "route" => route::run(&args),
         "num" => num::run(&args),
         "isdyn" => isdyn::run(&args),
+        "reactive" => reactive::run(&args),
         e => {
             eprintln!("unknown engine {e}");
             std::process::exit(2)
